@@ -1520,8 +1520,12 @@ def _is_unit_slice(p):
     if p.lower is None or p.upper is None or p.step is not None:
         return False
     u = p.upper
-    return isinstance(u, ast.BinOp) and isinstance(u.op, ast.Add) and norm_src(u.left) == norm_src(p.lower) \
-        and isinstance(u.right, ast.Constant) and u.right.value == 1
+    if not (isinstance(u, ast.BinOp) and isinstance(u.op, ast.Add)):
+        return False
+    for a_, b_ in ((u.left, u.right), (u.right, u.left)):
+        if norm_src(a_) == norm_src(p.lower) and isinstance(b_, ast.Constant) and b_.value == 1:
+            return True
+    return False
 
 
 def _compatible_space(sp, ax, sub_axes=None):
